@@ -69,6 +69,12 @@ fn main() {
                 seqx::replay(w)
             } else if w.starts_with("sketchx|") {
                 sketchx::replay(w)
+            } else if w.starts_with("cfgx|") {
+                let r = cfgx::run();
+                for v in &r.violations {
+                    println!("      VIOLATED {} [{}]: {}", v.prop, v.sig, v.detail);
+                }
+                r.violations
             } else if w.starts_with("overshoot|") {
                 println!("re-run: mmverif overshoot (the whole family takes well under a second)");
                 let out = seqx::overshoot();
